@@ -367,7 +367,7 @@ def C04(ctx):
 def C05(ctx):
     q = ctx.quick
     pipeline_mc(ctx, q)
-    fn_campaign(ctx, [("vreqs", 2 if q else 3)], [])
+    fn_campaign(ctx, [("vreqs", 3)], [])
     req_campaign(ctx, [("reqs", 0 if q else 2), ("reqfold", 0)])
     return dict(
         rule="E: every combination of always-required {content-type, x-req}, conditionally required {etag, x-opt} and "
@@ -400,7 +400,7 @@ def C12(ctx):
     q = ctx.quick
     pipeline_mc(ctx, q)
     fn_campaign(ctx, [("foldsize", 0)], [])        # bodies whose folded URI would not fit (arithmetic predicate)
-    req_campaign(ctx, ([("fold", 0), ("fold", 1)] if q else [("fold", 1), ("fold", 2)]) + [("s3hash", 0)])
+    req_campaign(ctx, ([("fold", 0), ("fold", 1)] if q else [("fold", 1), ("fold", 2)]) + [("s3hash", 0), ("charsets", 0 if q else 1)])
     return dict(
         rule="E: URL parameter lists x body parameter lists over names {a, b} x values {1, 2, empty} (incl. the same name in "
              "both) x 13 content types (exact, charset utf-8/UTF8/unicode-1-1-utf-8/foobar/latin1/empty, extra params, "
@@ -430,7 +430,8 @@ def C17(ctx):
     q = ctx.quick
     pipeline_mc(ctx, q)
     fn_campaign(ctx, [("leakfn", 0)], [])
-    req_campaign(ctx, [("leak_defects", 1 if q else 2), ("leak_scripts", 0), ("leak_sigmut", 0), ("leak_long", 0)])
+    req_campaign(ctx, [("leak_defects", 1 if q else 2), ("leak_scripts", 0), ("leak_sigmut", 0), ("leak_long", 0), ("leak_cfg", 0),
+                       ("leak_midnight", 0)])
     return dict(
         rule="Every validation in the leak families runs with a capturing `log` logger at Trace level; the harness searches "
              "each log record, the Display and Debug text of the returned error, and the Debug text of the canonical "
